@@ -135,6 +135,52 @@ def opMergeRead : List V → Option V
       some (ofCheckedOut ((Mk.Merge.kmergeCheckedFiles leRow d c ins).map Mk.Merge.kmDeliverRead))
   | _ => none
 
+/-- `mergepaths <chunk> [suffix…] [[row…]…]` → rows yielded by `merge_sort` on files with these
+suffixes (the row iterator is chosen from the first one), or `reject-empty` when the code raises -/
+def opMergePaths : List V → Option V
+  | [c, sfx, ins] => do
+      let c ← toNat? c
+      let sfx ← toList? toStr? sfx
+      let ins ← minputs? ins
+      if c = 0 then some (atom "reject-chunk0") else
+      if sfx.length ≠ ins.length then none else
+      some (ofMergeOut (Mk.Merge.kmergePaths leRow c (sfx.zip ins)))
+  | _ => none
+
+/-- `mergegroups <row-group size> <chunk> [[row…]…]` → `merge_sort` on Parquet files written in
+row groups and read in batches that stop at the row-group borders -/
+def opMergeGroups : List V → Option V
+  | [g, c, ins] => do
+      let g ← toNat? g
+      let c ← toNat? c
+      let ins ← minputs? ins
+      if c = 0 || g = 0 then some (atom "reject-chunk0") else
+      some (ofMergeOut (Mk.Merge.kmerge leRow (ins.map (Mk.Merge.kmRowIterGroups g c))))
+  | _ => none
+
+/-- `mergecheckedgroups <desc> <row-group size> <chunk> [[row…]…]` → the same for the table merger -/
+def opMergeCheckedGroups : List V → Option V
+  | [d, g, c, ins] => do
+      let d ← toBool? d
+      let g ← toNat? g
+      let c ← toNat? c
+      let ins ← minputs? ins
+      if c = 0 || g = 0 then some (atom "reject-chunk0") else
+      some (ofCheckedOut (Mk.Merge.kmergeChecked leRow d (ins.map (Mk.Merge.kmRowIterGroups g c))))
+  | _ => none
+
+/-- `mergenested <desc> <inner chunk> <outer chunk> [[[row…]…]…]` → `[rows raised?]` of a table merger
+whose inputs are table mergers over the groups -/
+def opMergeNested : List V → Option V
+  | [d, cin, cout, groups] => do
+      let d ← toBool? d
+      let cin ← toNat? cin
+      let cout ← toNat? cout
+      let groups ← toList? minputs? groups
+      if cin = 0 || cout = 0 then some (atom "reject-chunk0") else
+      some (ofCheckedOut (Mk.Merge.kmergeNested leRow d cin cout groups))
+  | _ => none
+
 end Mk.Ops.Merge
 
 namespace Mk.Ops
@@ -145,6 +191,8 @@ def mergeOps : List (String × (List V → Option V)) :=
    ("mergechecked", Merge.opMergeChecked), ("mergerechunk", Merge.opRechunk),
    ("spec-C14-merge", Merge.opSpecMerge), ("spec-C14-checked", Merge.opSpecChecked),
    ("stablesort", Merge.opStableSort), ("mergecols", Merge.opMergeCols),
-   ("mergeframes", Merge.opMergeFrames), ("mergeread", Merge.opMergeRead)]
+   ("mergeframes", Merge.opMergeFrames), ("mergeread", Merge.opMergeRead),
+   ("mergepaths", Merge.opMergePaths), ("mergegroups", Merge.opMergeGroups),
+   ("mergecheckedgroups", Merge.opMergeCheckedGroups), ("mergenested", Merge.opMergeNested)]
 
 end Mk.Ops
